@@ -108,3 +108,24 @@ class SymList:
 
     def vc_truth(self):
         return self.seq.n > 0
+
+
+class OpaqueList:
+    """An unbounded list whose earlier contents are irrelevant to the function under contract: appends are logged
+    (ghost) so that a postcondition can state exactly what was appended; reading it is unsupported."""
+
+    def __init__(self, name='lst'):
+        self.name = name
+        self.appended = []
+
+    def vc_getattr(self, eng, attr, node=None):
+        if attr == 'append':
+            return BoundMethod('append', lambda e, a, k: self.appended.append(a[0]))
+        if attr == 'appended':
+            return self.appended          # ghost log, for specifications
+        raise Unsupported('%s on an opaque list' % attr)
+
+    def vc_snapshot(self):
+        o = OpaqueList(self.name)
+        o.appended = list(self.appended)
+        return o
